@@ -184,29 +184,31 @@ end Spec
 
 /-! ## concurrent executions sharing the temp directory -/
 
-inductive DirOp
-  | create (n : Name)
-  | remove (n : Name)
-  | spawn                      -- the hook process runs (does not touch the modelled files)
-  deriving DecidableEq, Repr
+/-- Slot `k` (creation order: context, metrics, admission, conversion, patch) ↦ its position in the
+removal order (context, metrics, conversion, admission, patch), and back (an involution). -/
+def rpos : Nat → Nat
+  | 2 => 3
+  | 3 => 2
+  | k => k
 
-def applyOp : DirOp → List Name → List Name
-  | .create n, dir => n :: dir
-  | .remove n, dir => dir.filter (· ≠ n)
-  | .spawn, dir => dir
+/-- Any number of executions sharing one temp directory. `pc i` is the program counter of execution
+`i`: `0..4` about to create slot `pc`, `5` the process runs, `6..10` about to remove the slot at
+removal position `pc - 6`, `11` finished. -/
+structure Sys where
+  pc : Nat → Nat
+  dir : List Name
 
-/-- The directory operations of one complete execution (all files created), in program order. -/
-def program (keepTmp : Bool) (names : Names) : List DirOp :=
-  names.created.map .create ++ [.spawn] ++ (if keepTmp then [] else names.removed.map .remove)
+/-- Execution `i` performs its next step (file names come from `name i slot`). -/
+def sysStep (name : Nat → Nat → Name) (s : Sys) (i : Nat) : Sys :=
+  let p := s.pc i
+  let bump : Nat → Nat := fun j => if j = i then p + 1 else s.pc j
+  if p < 5 then ⟨bump, name i p :: s.dir⟩
+  else if p = 5 then ⟨bump, s.dir⟩
+  else if p < 11 then ⟨bump, s.dir.filter (fun x => x ≠ name i (rpos (p - 6)))⟩
+  else s
 
-/-- One step of the system: execution `i` performs its next operation (no-op if it has finished or
-does not exist). State: the remaining program of every execution, the directory. -/
-def sysStep (st : List (List DirOp) × List Name) (i : Nat) : List (List DirOp) × List Name :=
-  match st.1[i]? with
-  | some (op :: rest) => (st.1.set i rest, applyOp op st.2)
-  | _ => st
-
-def sysRun (st : List (List DirOp) × List Name) (sched : List Nat) : List (List DirOp) × List Name :=
-  sched.foldl sysStep st
+/-- A schedule: which execution moves next. -/
+def sysRun (name : Nat → Nat → Name) (s : Sys) (sched : List Nat) : Sys :=
+  sched.foldl (sysStep name) s
 
 end ShellOp.HookRun
